@@ -53,6 +53,21 @@ def stream_env(ip):
         if name == "__bool__":
             return True
         return NotImplemented
+    def wait_for(ip_, args, kw, ctx):
+        """E8: asyncio.wait_for(aw, timeout) returns aw's result, or raises TimeoutError after cancelling aw - a cancelled stream
+        read has consumed nothing: the reply (arriving later) is still the next thing the connection delivers"""
+        from pyvc.interp import Builtin as _B
+        aw = args[0] if args else kw.get("fut")
+        ctx.used_models.add("E8: asyncio.wait_for returns the awaited result or raises TimeoutError leaving a cancelled stream read unconsumed")
+        if ctx.fork(2) == 0:
+            return aw
+        if ctx.ghost.events and ctx.ghost.events[-1][0] == "read" and ctx.ghost.events[-1][1] is aw:
+            ctx.ghost.events.pop()
+            ctx.ghost.reads -= 1
+        ctx.ghost.events.append(("timeout",))
+        raise PyExc(ExcVal("TimeoutError", ()))
+    from pyvc.interp import Builtin
+    ip.ext_models["asyncio.wait_for"] = Builtin("wait_for", wait_for)
     if not hasattr(ip, "env_handlers"):
         ip.env_handlers = {}
     ip.env_handlers["writer"] = writer
